@@ -93,6 +93,14 @@ func failingStatements(w *world, maxM int) []failStmt {
 			failStmt{SQL: "DELETE FROM t1 WHERE nosuchcol = 1", Class: "delete/where-unknown-column", K: 0},
 		)
 	}
+	// a WHERE clause that is evaluated fine for the first rows and errors on a later one (NULL operand of >):
+	// the statement fails as a whole, before any row operation
+	if t5, ok := w.model.Tables["t5"]; ok && len(t5.Rows) > 1 {
+		out = append(out,
+			failStmt{SQL: "UPDATE t5 SET c = 'q' WHERE a > 0", Class: "update/where-errors-on-later-row", K: 0, M: len(t5.Rows)},
+			failStmt{SQL: "DELETE FROM t5 WHERE a > 0", Class: "delete/where-errors-on-later-row", K: 0, M: len(t5.Rows)},
+			failStmt{SQL: "UPDATE t5 SET c = 'q' WHERE a > 0 AND c = 'r1'", Class: "update/where-errors-on-later-row", K: 0, M: len(t5.Rows)})
+	}
 	// UPDATE overflowing the row limit on the k-th matching row only: t4 has one long row
 	if t4, ok := w.model.Tables["t4"]; ok {
 		k := 0
@@ -127,6 +135,19 @@ func c14Seed(w *world, name string) *world {
 			ok = w.do(st)
 		}
 		return okw(w, ok)
+	case name == "t5-null-later":
+		// t5(a int, c varchar): two ordinary rows, then a row whose a is NULL, then another ordinary one
+		ok := w.do(mkCreate("t1", worldSchemas["t1"])) && w.do(mkInsert(w.model, "t1", 2, false)) && w.do(mkCreate("t5", worldSchemas["t1"])) &&
+			w.do(mkInsert(w.model, "t5", 2, false))
+		if ok {
+			st := stmt{SQL: "INSERT INTO t5 (c) VALUES ('null-a')", Kind: "insert", Table: "t5", N: 1, apply: func(m *mModel, _ int) {
+				t := m.Tables["t5"]
+				t.Rows = append(t.Rows, &mRow{Vals: []any{nil, "null-a"}})
+				t.Inserted++
+			}}
+			ok = w.do(st) && w.do(mkInsert(w.model, "t5", 1, false))
+		}
+		return okw(w, ok)
 	case name == "t1-empty":
 		return okw(w, w.do(mkCreate("t1", worldSchemas["t1"])))
 	}
@@ -135,7 +156,7 @@ func c14Seed(w *world, name string) *world {
 
 func runC14(env *lib.Env, rep *lib.Report) {
 	maxM := 3
-	seeds := []string{"t1-empty", "t1x8", "t1x8-upper-deleted", "interleaved", "t4k1", "t4k2", "t4k3"}
+	seeds := []string{"t1-empty", "t1x8", "t1x8-upper-deleted", "interleaved", "t4k1", "t4k2", "t4k3", "t5-null-later"}
 	if env.Thorough() {
 		maxM = 4
 		seeds = append(seeds, "t1x30", "t1x8+t2t3-crashed", "t1x12+t2x1")
